@@ -272,13 +272,14 @@ def setitem(it, obj, idx, val, node):
                                       ite(g, val, slot.value) if slot.value is not None else val)
         return
     if isinstance(obj, MDict):
-        if not is_sym(idx) and not contains_sym(idx) and not ctx.generic and not ctx.preds:
+        local = len(ctx.generic) <= obj.depth and len(ctx.preds) <= obj.pdepth
+        if not is_sym(idx) and not contains_sym(idx) and local:
             if obj.nodes:
                 obj.nodes.append(Lit((idx, val)))
             else:
                 obj.d[idx] = val
             return
-        it._append_node(obj.nodes, (idx, val))
+        it._append_node(obj.nodes, (idx, val), obj)
         return
     if isinstance(obj, MList):
         if obj.is_concrete() and not is_sym(idx) and not ctx.generic:
@@ -358,7 +359,10 @@ def map_lookup(it, d, key, default, node, must=False):
             kind = 'str'
     if kind is None:
         raise Unsupported('map lookup value kind')
-    res = SV(kind, z3.Const(fresh_name('lookup'), SORTS[kind]))
+    sig = canonical_map_id(seq)
+    ksv = key if isinstance(key, SV) else lift(key)
+    lf = uf(f'lookup#{sig}', SORTS[ksv.kind], SORTS[kind])
+    res = SV(kind, lf(ksv.z))
     alts = []
     for binders, guard, kv, _ in leaves:
         body = z_and(*[b.constraint for b in binders], guard, z_bool(val_eq(kv[0], key)),
@@ -376,6 +380,71 @@ def map_lookup(it, d, key, default, node, must=False):
         return res
     it.ctx.assume(z3.If(inkeys, some, dflt_ok))
     return res
+
+
+_NNF = z3.Then('nnf', 'simplify')
+_map_registry: list = []
+
+
+def canonical_map_id(seq) -> str:
+    """Identifier of the map denoted by `seq`: syntactic signature, unified with an earlier map when z3 proves
+    the two families equal (same keys, same values) - equal maps share one lookup function."""
+    from vc.pyvc import famcmp
+    sig = seq_signature(seq)
+    for other, osig in _map_registry:
+        if osig == sig:
+            return osig
+    for other, osig in _map_registry:
+        try:
+            goals = famcmp.seq_goals(seq, other, [])
+        except (famcmp.ShapeMismatch, Unsupported):
+            continue
+        ok = True
+        for _, asm, g in goals:
+            sv = z3.Solver()
+            sv.set('timeout', 2000)
+            sv.add(*asm)
+            sv.add(*LITS.axioms())
+            sv.add(z3.Not(g))
+            if sv.check() != z3.unsat:
+                ok = False
+                break
+        if ok:
+            return osig
+    _map_registry.append((seq, sig))
+    return sig
+
+
+def seq_signature(seq) -> str:
+    """Structural signature of a sequence tree (binder variables normalised): equal signatures = same family."""
+    parts = []
+    for binders, guard, elem, _ in seq.leaves():
+        subst = [(b.var, z3.Int(f'$b{i}')) for i, b in enumerate(binders)]
+
+        def norm(t):
+            return z3.substitute(t, *subst).sexpr() if subst else t.sexpr()
+
+        def normg(t):
+            try:
+                t = _NNF(t).as_expr()
+            except z3.Z3Exception:
+                pass
+            return norm(t)
+        parts.append('|'.join([norm(b.constraint) for b in binders]) + '#' + normg(z_bool(guard)) + '#' +
+                     _value_sig(elem, norm))
+    import hashlib
+    return hashlib.blake2b('\n'.join(parts).encode(), digest_size=6).hexdigest()
+
+
+def _value_sig(v, norm) -> str:
+    if isinstance(v, SV):
+        return norm(v.z) + ('?' + norm(v.none) if v.none is not None else '')
+    if isinstance(v, tuple):
+        return '(' + ','.join(_value_sig(x, norm) for x in v) + ')'
+    if isinstance(v, SObj):
+        return getattr(v.cls, '__name__', 'obj') + '{' + ','.join(
+            f'{k}:{_value_sig(x, norm)}' for k, x in sorted(v.attrs.items()) if k != '_wordnet') + '}'
+    return repr(v) if not is_sym(v) else type(v).__name__
 
 
 def _lookup_structured(it, d, seq, leaves, key, default, inkeys, must, node):
@@ -1137,7 +1206,16 @@ def first_of_seq(it, seq: Seq, default, node):
     # instantiate the binders with fresh witnesses
     subst = []
     for b in binders:
-        w = z3.Int(fresh_name('first_' + str(b.var).split('!')[0]))
+        # canonical witness name: the same sequence always has the same first element
+        canon = getattr(seq, 'first_name', None) or (seq.label if seq.label and seq.label not in (
+            'mlist', 'select', 'set', 'sorted', 'guarded') else None)
+        if canon is None and b.origin and b.key and b.key[0] == 'list':
+            g = z3.simplify(z_bool(guard))
+            canon = b.origin if z3.is_true(g) else f'{b.origin}|{hash(z3.substitute(g, (b.var, z3.Int("$i"))).sexpr()) & 0xffffff:x}'
+        if canon is not None:
+            w = z3.Int(f'first[{canon}|{str(b.var).split("!")[0]}]')
+        else:
+            w = z3.Int(fresh_name('first_' + str(b.var).split('!')[0]))
         subst.append((b.var, w))
     for b in binders:
         it.ctx.assume(z3.substitute(b.constraint, *subst))
@@ -1177,7 +1255,9 @@ def subst_value(v, subst):
     if isinstance(v, MList) and v.is_concrete():
         return MList([subst_value(x, subst) for x in v.items()])
     if isinstance(v, SList):
-        raise Unsupported('substitution into a nested symbolic list')
+        if not v.parents:
+            return v
+        return SList(v.name, v.make_elem, tuple(z3.substitute(p, *subst) for p in v.parents))
     return v
 
 
@@ -1535,7 +1615,7 @@ def gc_add(it, cell, args, kw, node):
 def grouped_add(it, d: MDict, key, val):
     if not hasattr(d, 'grouped'):
         d.grouped = []           # nodes of (group key, member)
-    it._append_node(d.grouped, (key, val))
+    it._append_node(d.grouped, (key, val), d)
 
 
 @method('MDict', 'items')
